@@ -35,6 +35,7 @@ type C05Cfg struct {
 	Mutation   string    `json:"mutation"` // for malformed
 	DeadlineMs int       `json:"deadlineMs"`
 	Enum       bool      `json:"enum"`
+	Concurrent bool      `json:"concurrent,omitempty"` // concurrent dispatch (used by C20)
 }
 
 var c05Deviations = []string{"none", "share-off", "reveal-mismatch", "consistent-off-poly", "equivocate-commit", "equivocate-reveal", "malformed", "duplicate", "early-reveal", "second-commit", "late-share", "withhold"}
@@ -439,6 +440,10 @@ func runC05(t *testing.T, spec RunSpec) *RunResult {
 	fired := 0
 	bubble(t, func() {
 		w := netsim.NewWorld(spec.Seed)
+		if cfg.Concurrent {
+			w.Serial = false
+			w.MaxConc = 4
+		}
 		trace(spec, res.Cfg, w)
 		d := NewDeployment(w, cfg.Deploy)
 		proxies := map[uint16]*kgProxy{}
